@@ -89,8 +89,10 @@ func (i *Input) UnmarshalJSON(b []byte) error {
 	if err != nil {
 		return err
 	}
+	if err := i.PreviousTxIDAdd(ptxID); err != nil {
+		return err
+	}
 	i.UnlockingScript = s
-	i.previousTxID = ptxID
 	i.PreviousTxOutIndex = ij.Vout
 	i.SequenceNumber = ij.Sequence
 	return nil
